@@ -268,7 +268,7 @@ def run_parallel(rep, prop, modname, descs, max_patterns=1 << 17, nproc=16):
             return d.get("n", 0) <= 14
         cells = g[0] * g[1] if "grid" in d else (g[0] + 1) * (g[1] + 1)
         return cells <= 36
-    hist = [d for d in descs if ("grid" in d or "frame" in d) and _moderate(d)]
+    hist = [d for d in descs if ("grid" in d or "frame" in d) and _moderate(d) and not d.get("solo")]
     hist = hist[:: max(1, len(hist) // 60)]
     seqs = []
     if hist:
@@ -287,7 +287,7 @@ def run_parallel(rep, prop, modname, descs, max_patterns=1 << 17, nproc=16):
     # two postings on one solver (see run_instance): a sample of all instances, the deep ones included
     quick = rep.tier == "quick"
     _small = _moderate
-    tw = [d for d in descs if d.get("deep") and not d.get("weave") and _small(d)] + [d for d in descs if not d.get("deep")][:: max(1, len(descs) // (40 if quick else 200))]
+    tw = [d for d in descs if d.get("deep") and not d.get("weave") and not d.get("solo") and _small(d)] + [d for d in descs if not d.get("deep")][:: max(1, len(descs) // (40 if quick else 200))]
     tw = [dict(d, twice=True) for d in tw] + [dict(d, twice="shared") for d in tw if "edges" in d and d.get("edges")]
     ntw = min(len(tw), nproc) or 1
     tasks += [(modname, prop, tw[i::ntw], rep.tier, rep.seed, 96 if quick else 256) for i in range(ntw) if tw[i::ntw]]
